@@ -70,20 +70,20 @@ Proof. exact (call_fidelity_lemma spyne_leaf spyne_leaf_sound). Qed.
     and a header; all hypotheses hold and the three conclusions compute. *)
 Definition lt_int : ltype := lt_integer.
 Definition ex_U0 : universe :=
-  [ mkcls [117] [72] None [ mkfield [116] (TLeaf lt_string) 0 (Some 1) true KElem ];
+  [ mkcls [117] [72] None [ mkfield [116] (TLeaf lt_string) 0 (Some 1) true KElem None None ];
     mkcls [117] [75] None
-      [ mkfield [105] (TLeaf lt_int) 1 (Some 1) true KAttr;
-        mkfield [120] (TLeaf lt_boolean) 0 None true KElem ] ].
+      [ mkfield [105] (TLeaf lt_int) 1 (Some 1) true KAttr None None;
+        mkfield [120] (TLeaf lt_boolean) 0 None true KElem None None ] ].
 Definition ex_Sv : service :=
   mkservice [117; 114; 110; 58; 116]
     [ mkmethod [111; 112; 49] SWrapped
-        [ mkfield [97] (TLeaf lt_int) 0 (Some 1) true KElem; mkfield [98] (TRef 1%nat) 0 (Some 2) true KElem ]
-        [ mkfield [] (TLeaf lt_string) 0 (Some 1) true KElem; mkfield [] (TRef 1%nat) 0 (Some 1) true KElem ]
+        [ mkfield [97] (TLeaf lt_int) 0 (Some 1) true KElem None None; mkfield [98] (TRef 1%nat) 0 (Some 2) true KElem None None ]
+        [ mkfield [] (TLeaf lt_string) 0 (Some 1) true KElem None None; mkfield [] (TRef 1%nat) 0 (Some 1) true KElem None None ]
         [0%nat] [0%nat];
-      mkmethod [111; 112; 50] SBare [ mkfield [107] (TRef 1%nat) 0 (Some 1) true KElem ]
-        [ mkfield [] (TLeaf lt_int) 0 (Some 1) true KElem ] [] [];
-      mkmethod [111; 112; 51] SOutBare [ mkfield [97] (TLeaf lt_int) 0 (Some 1) true KElem ]
-        [ mkfield [] (TRef 1%nat) 0 (Some 1) true KElem ] [] [] ].
+      mkmethod [111; 112; 50] SBare [ mkfield [107] (TRef 1%nat) 0 (Some 1) true KElem None None ]
+        [ mkfield [] (TLeaf lt_int) 0 (Some 1) true KElem None None ] [] [];
+      mkmethod [111; 112; 51] SOutBare [ mkfield [97] (TLeaf lt_int) 0 (Some 1) true KElem None None ]
+        [ mkfield [] (TRef 1%nat) 0 (Some 1) true KElem None None ] [] [] ].
 Definition ex_m : method := nth 0 (s_methods ex_Sv) (mkmethod [] SWrapped [] [] [] []).
 Definition ex_args : list val := [VNone; VList []].
 Definition ex_hv : option (list val) := Some [VObj 0%nat [VLeaf (LText [104; 105])]].
